@@ -7,7 +7,7 @@ package main
 // VerifyKes / VerifyOpCertSignature on the decoded header) judges it.
 //
 // op:  hdr <c|t> <useed> <slot> <blockNo> <spk> <maxEvo> <ocPeriod> <kesT> <seq> <ctx> <tamper>
-// out: lead=<b> ser=<b> valid=<b> errs=<check names> lkes=<1|0|e> lopc=<b>
+// out: lead=<b> ser=<b> valid=<b> lkes=<1|0|e> lopc=<b> errs=<check names>
 //      (or: lead=0 notleader | lead=- builderr:<kind>)
 
 import (
@@ -24,7 +24,11 @@ import (
 	"github.com/blinklabs-io/gouroboros/consensus"
 	"github.com/blinklabs-io/gouroboros/kes"
 	"github.com/blinklabs-io/gouroboros/ledger"
+	"github.com/blinklabs-io/gouroboros/ledger/allegra"
+	"github.com/blinklabs-io/gouroboros/ledger/alonzo"
 	"github.com/blinklabs-io/gouroboros/ledger/babbage"
+	"github.com/blinklabs-io/gouroboros/ledger/conway"
+	"github.com/blinklabs-io/gouroboros/ledger/mary"
 	"github.com/blinklabs-io/gouroboros/ledger/common"
 	"github.com/blinklabs-io/gouroboros/ledger/shelley"
 	"github.com/blinklabs-io/gouroboros/vrf"
@@ -135,6 +139,27 @@ var c40Tampers = []string{"none", "blockNo", "slot", "prevHash", "issuer", "vrfK
 	"vrfProofLen", "vrfOutLen", "vrfKeyLen", "kesSigLen", "ocHotLen", "issuerLen", "ocSigLen",
 	"nonceProofLen", "nonceOutLen"}
 
+// g8Era describes one header / block flavour the ledger's verifier switches on.
+type g8Era struct {
+	tpraos    bool
+	blockType uint
+	nseg      int
+	proto     uint64
+}
+
+// "c" and "t" are the round-1 names of babbage and shelley
+var g8Eras = map[string]g8Era{
+	"t":       {true, ledger.BlockTypeShelley, 3, 2},
+	"c":       {false, ledger.BlockTypeBabbage, 4, 8},
+	"shelley": {true, ledger.BlockTypeShelley, 3, 2},
+	"allegra": {true, ledger.BlockTypeAllegra, 3, 3},
+	"mary":    {true, ledger.BlockTypeMary, 3, 4},
+	"alonzo":  {true, ledger.BlockTypeAlonzo, 4, 5},
+	"babbage": {false, ledger.BlockTypeBabbage, 4, 7},
+	"conway":  {false, ledger.BlockTypeConway, 4, 9},
+}
+var g8EraNames = []string{"shelley", "allegra", "mary", "alonzo", "babbage", "conway"}
+
 func g8TpraosOnly(t string) bool {
 	return t == "nonceProof" || t == "nonceOut" || t == "nonceProofLen" || t == "nonceOutLen"
 }
@@ -173,10 +198,11 @@ func runC40(op string) string {
 	if len(f) > 0 && f[0] == "blk" {
 		return g8RunC40Block(f)
 	}
-	if len(f) != 12 || f[0] != "hdr" || (f[1] != "c" && f[1] != "t") {
+	era, okEra := g8Eras[f[1]]
+	if len(f) != 12 || f[0] != "hdr" || !okEra {
 		return "bad-op"
 	}
-	tpraos := f[1] == "t"
+	tpraos := era.tpraos
 	useed, ok := unhex(f[2])
 	slot, e1 := strconv.ParseUint(f[3], 10, 64)
 	blockNo, e2 := strconv.ParseUint(f[4], 10, 64)
@@ -368,19 +394,33 @@ func runC40(op string) string {
 	lkes, lopc := "e", "e"
 	var lh ledger.BlockHeader
 	var oc *ledger.OpCert
-	if tpraos {
-		h, err := shelley.NewShelleyBlockHeaderFromCbor(hdrCbor)
-		if err == nil {
-			lh = h
-			oc = &ledger.OpCert{KesVkey: h.Body.OpCertHotVkey, IssueNumber: uint64(h.Body.OpCertSequenceNumber),
-				KesPeriod: uint64(h.Body.OpCertKesPeriod), ColdSignature: h.Body.OpCertSignature}
+	// decode as the era's own header type (ExtractKesFields switches on it)
+	if h, err := ledger.NewBlockHeaderFromCbor(era.blockType, hdrCbor); err == nil {
+		lh = h
+		var sb *shelley.ShelleyBlockHeader
+		var bb *babbage.BabbageBlockHeader
+		switch hh := h.(type) {
+		case *shelley.ShelleyBlockHeader:
+			sb = hh
+		case *allegra.AllegraBlockHeader:
+			sb = &hh.ShelleyBlockHeader
+		case *mary.MaryBlockHeader:
+			sb = &hh.ShelleyBlockHeader
+		case *alonzo.AlonzoBlockHeader:
+			sb = &hh.ShelleyBlockHeader
+		case *babbage.BabbageBlockHeader:
+			bb = hh
+		case *conway.ConwayBlockHeader:
+			bb = &hh.BabbageBlockHeader
 		}
-	} else {
-		h, err := babbage.NewBabbageBlockHeaderFromCbor(hdrCbor)
-		if err == nil {
-			lh = h
-			oc = &ledger.OpCert{KesVkey: h.Body.OpCert.HotVkey, IssueNumber: uint64(h.Body.OpCert.SequenceNumber),
-				KesPeriod: uint64(h.Body.OpCert.KesPeriod), ColdSignature: h.Body.OpCert.Signature}
+		if sb != nil {
+			oc = &ledger.OpCert{KesVkey: sb.Body.OpCertHotVkey, IssueNumber: uint64(sb.Body.OpCertSequenceNumber),
+				KesPeriod: uint64(sb.Body.OpCertKesPeriod), ColdSignature: sb.Body.OpCertSignature}
+		} else if bb != nil {
+			oc = &ledger.OpCert{KesVkey: bb.Body.OpCert.HotVkey, IssueNumber: uint64(bb.Body.OpCert.SequenceNumber),
+				KesPeriod: uint64(bb.Body.OpCert.KesPeriod), ColdSignature: bb.Body.OpCert.Signature}
+		} else {
+			lh = nil
 		}
 	}
 	if lh != nil {
@@ -401,7 +441,7 @@ func runC40(op string) string {
 	} else {
 		lkes, lopc = "decode", "decode"
 	}
-	return fmt.Sprintf("lead=1 ser=%s valid=%s errs=%s lkes=%s lopc=%s", b01(ser), b01(res.Valid), es, lkes, lopc)
+	return fmt.Sprintf("lead=1 ser=%s valid=%s lkes=%s lopc=%s errs=%s", b01(ser), b01(res.Valid), lkes, lopc, es)
 }
 
 func genC40(r *Rand, n int, tier string, emit func(string)) {
@@ -411,7 +451,7 @@ func genC40(r *Rand, n int, tier string, emit func(string)) {
 			g8GenC40Block(r, emit, useeds[r.Intn(2)])
 			continue
 		}
-		mode := Pick(r, "c", "c", "t")
+		mode := g8EraNames[r.Intn(len(g8EraNames))]
 		spk := Pick(r, uint64(129600), 129600, 100, 1, 7, 3600)
 		maxEvo := Pick(r, uint64(62), 62, 62, 64, 1, 5, 63)
 		kesT := uint64(Pick(r, 0, 0, 1, 2, 5, 30, 61, 62, 63, r.Intn(64)))
@@ -431,7 +471,32 @@ func genC40(r *Rand, n int, tier string, emit func(string)) {
 				kesT = cur - ocPeriod
 			}
 		}
+		// both edges of the certificate window, ±1: the early side signed with the un-evolved key
+		if r.Chance(1, 5) {
+			if ocPeriod == 0 {
+				ocPeriod = 1 + uint64(r.Intn(300))
+			}
+			switch r.Intn(5) {
+			case 0:
+				cur, kesT = ocPeriod-1, 0
+			case 1:
+				cur, kesT = ocPeriod, 0
+			case 2:
+				cur, kesT = ocPeriod+1, 1
+			case 3:
+				cur = ocPeriod + maxEvo - 1
+				kesT = min(maxEvo-1, 63)
+			default:
+				cur = ocPeriod + maxEvo
+				kesT = min(maxEvo, 63)
+			}
+		}
 		slot := cur*spk + uint64(r.Intn(int(spk)))
+		if r.Chance(1, 3) {
+			slot = cur * spk // first slot of the period
+		} else if r.Chance(1, 3) {
+			slot = cur*spk + spk - 1 // last slot of the period
+		}
 		if slot == 0 {
 			slot = 1
 		}
@@ -444,7 +509,7 @@ func genC40(r *Rand, n int, tier string, emit func(string)) {
 		tamper := "none"
 		if r.Chance(3, 5) {
 			tamper = c40Tampers[r.Intn(len(c40Tampers))]
-			if mode == "c" && g8TpraosOnly(tamper) {
+			if !g8Eras[mode].tpraos && g8TpraosOnly(tamper) {
 				tamper = "vrfProof"
 			}
 		}
